@@ -84,23 +84,26 @@ FAMILIES = {
     },
     # constraint trees: all of depth <= 2 over three names, plus arithmetic/aggregate shapes
     'Ast': {
-        'quick':    dict(module='FMAstGen', consts=dict(ANames={'f1', 'f2', 'f3'}, BinOps=LOGIC_BIN, Depth=2, GrowSteps=0, WithArith=True, Walks=0, Seed=0),
+        'quick':    dict(module='FMAstGen', consts=dict(ANames={'f1', 'f2', 'f3'}, BinOps=LOGIC_BIN, Depth=2, GrowSteps=0, WithArith=True, Walks=0, Seed=0, NegLits=0),
                          invariants=['L8_Forms', 'L_Shape'], defaults=False),
-        'thorough': dict(module='FMAstGen', consts=dict(ANames={'f1', 'f2', 'f3'}, BinOps=LOGIC_BIN, Depth=2, GrowSteps=0, WithArith=True, Walks=0, Seed=0),
+        'thorough': dict(module='FMAstGen', consts=dict(ANames={'f1', 'f2', 'f3'}, BinOps=LOGIC_BIN, Depth=2, GrowSteps=0, WithArith=True, Walks=0, Seed=0, NegLits=0),
                          invariants=['L8_Forms', 'L_Shape'], defaults=False),
     },
     # random deeper trees (simulation)
     'AstDeep': {
-        'quick':    dict(module='FMAstGen', consts=dict(ANames={'f1', 'f2', 'f3'}, BinOps=LOGIC_BIN, Depth=1, GrowSteps=2, WithArith=False,
+        'quick':    dict(module='FMAstGen', consts=dict(ANames={'f1', 'f2', 'f3'}, BinOps=LOGIC_BIN, Depth=1, GrowSteps=2, WithArith=False, NegLits=0,
                                                        Walks=300), invariants=['L_Shape'], defaults=False, walks_ast=True),
-        'thorough': dict(module='FMAstGen', consts=dict(ANames={'f1', 'f2', 'f3', 'f4'}, BinOps=LOGIC_BIN, Depth=1, GrowSteps=2, WithArith=False,
+        'thorough': dict(module='FMAstGen', consts=dict(ANames={'f1', 'f2', 'f3', 'f4'}, BinOps=LOGIC_BIN, Depth=1, GrowSteps=2, WithArith=False, NegLits=0,
                                                        Walks=5000), invariants=['L_Shape'], defaults=False, walks_ast=True),
     },
+    'AstNeg': {   # one operator over two literals with up to three redundant negations each
+        t: dict(module='FMAstGen', consts=dict(ANames={'f1', 'f2'}, BinOps=LOGIC_BIN, Depth=0, GrowSteps=0, WithArith=False, Walks=0, Seed=0, NegLits=3),
+                invariants=['L_Shape'], defaults=False) for t in ('quick', 'thorough')},
     'AstNNF': {   # walks inside the and/or/not fragment (what CNF conversion works on), to depth 4
         'quick':    dict(module='FMAstGen', consts=dict(ANames={'f1', 'f2', 'f3', 'f4'}, BinOps={'AND', 'OR'}, Depth=1, GrowSteps=3,
-                                                       WithArith=False, Walks=700), invariants=['L_Shape'], defaults=False, walks_ast=True),
+                                                       WithArith=False, NegLits=0, Walks=700), invariants=['L_Shape'], defaults=False, walks_ast=True),
         'thorough': dict(module='FMAstGen', consts=dict(ANames={'f1', 'f2', 'f3', 'f4'}, BinOps={'AND', 'OR'}, Depth=1, GrowSteps=4,
-                                                       WithArith=False, Walks=8000), invariants=['L_Shape'], defaults=False, walks_ast=True),
+                                                       WithArith=False, NegLits=0, Walks=8000), invariants=['L_Shape'], defaults=False, walks_ast=True),
     },
     'DecorAttr': {
         'quick':    dict(consts=dict(N=3, MaxKids=2, MinHi=1, Axes={'attr'}, AttrNames=['a1'],
